@@ -1,21 +1,23 @@
 ----------------------------- MODULE Trace_SwcIO -----------------------------
 (***************************************************************************)
-(* Trace validation of the reader loop (C02).  The executor hands the real *)
-(* reader a text stream that logs every line it gives out, the end of the  *)
-(* stream, and its close(); the outcome of the call is the last event:     *)
-(*   <<"next", k>>  line k was handed to the loop                          *)
-(*   <<"eof">>      the loop asked for a line after the last one           *)
-(*   <<"close">>    the context manager closed the stream                  *)
+(* Trace validation of the reader (C02).  The executor hands the real      *)
+(* reader a text stream that logs which lines it has been handed (however  *)
+(* it asks for them), when it was told the stream is exhausted, and its    *)
+(* close(); the outcome of the call is the last event:                     *)
+(*   <<"next", k>>  line k was handed to the reader                        *)
+(*   <<"eof">>      the reader was told that there are no more lines       *)
+(*   <<"close">>    the stream was closed                                  *)
 (*   <<"returned", nrows>> / <<"raised">>                                  *)
-(* The trace is replayed against the reader state machine of SwcIO.tla,    *)
-(* one event at a time; between two events the machine takes the steps it  *)
-(* must (they are not observable):                                         *)
-(*   next k (k > 1)  <=  Read{Data,Comment,Blank} of line k-1              *)
-(*   eof             <=  Read* of the last line                            *)
-(*   close           <=  (EndLoop | RaiseInvalid) ; ExitCtx                *)
-(*   outcome         <=  FinishStep                                        *)
+(* Replayed against the reader state machine of SwcIO.tla at the level the *)
+(* property fixes:  the machine's position is the number of lines handed   *)
+(* out; it is "doomed" once a line it cannot read has been handed out; it  *)
+(* may return only if it is not doomed, every line has been handed out     *)
+(* and the specification returns, with one row per data line; it may       *)
+(* raise only where the specification raises.  Whether a doomed reader     *)
+(* stops at once (RaiseInvalid, as the code does) or goes on collecting    *)
+(* lines before it raises, and whether it closes a stream it was given,    *)
+(* is not fixed by the property and not judged.                            *)
 (* A text stream is already decoded, so RaiseDecode cannot occur here.     *)
-(* State of the replay: pos (next line to process), st, rows read so far.  *)
 (***************************************************************************)
 EXTENDS SwcIO, Json, IOUtils
 Cases == ndJsonDeserialize(IOEnv.CASES)
@@ -26,44 +28,32 @@ VARIABLES ci, k, m, bad
 Init == ci = 1 /\ k = 0 /\ m = <<>> /\ bad = <<>> /\ RInit({<<>>}, {Opt(0, FALSE, FALSE, "utf-8")})
 Fail(o, w) == bad' = Append(bad, <<o.cid, w>>) /\ ci' = ci + 1 /\ k' = 0 /\ m' = <<>>
 Readable(f, op, j) == j >= 1 /\ j <= Len(f) /\ ~Malformed(f[j], op)                       \* one of ReadData / ReadComment / ReadBlank is enabled on line j
-IsD(f, op, j) == f[j].k = "D"
 Step == /\ ci <= Len(Obs)
         /\ LET o == Obs[ci]
                c == Cases[o.cid]
                f == c.file
                op == OptOfCase(c)
-               cur == IF k = 0 THEN [pos |-> 1, st |-> "loop", n |-> 0, fetched |-> 0] ELSE m IN
+               cur == IF k = 0 THEN [pos |-> 0, st |-> "loop", doomed |-> FALSE, closed |-> FALSE] ELSE m IN
            IF k >= Len(o.events) THEN
                 (IF cur.st \in {"returned", "raised"} THEN ci' = ci + 1 /\ k' = 0 /\ m' = <<>> /\ bad' = bad ELSE Fail(o, "trace-ends-before-the-call-does"))
-           ELSE LET e == o.events[k + 1]
-                    \* process the line that was fetched last, if any (Read*): returns the new state or "bad" when that line cannot be read
-                    afterRead == IF cur.fetched = 0 THEN cur
-                                 ELSE [cur EXCEPT !.pos = cur.fetched + 1, !.n = IF IsD(f, op, cur.fetched) THEN @ + 1 ELSE @, !.fetched = 0] IN
+           ELSE LET e == o.events[k + 1] IN
                 CASE e[1] = "next" ->
-                        IF cur.st # "loop" THEN Fail(o, "line-read-after-the-loop-ended")
-                        ELSE IF cur.fetched # 0 /\ ~Readable(f, op, cur.fetched) THEN Fail(o, "continued-past-a-bad-line")
-                        ELSE IF e[2] # afterRead.pos \/ e[2] > Len(f) THEN Fail(o, "lines-not-consumed-one-by-one-in-order")
-                        ELSE k' = k + 1 /\ m' = [afterRead EXCEPT !.fetched = e[2]] /\ ci' = ci /\ bad' = bad
+                        IF cur.st # "loop" THEN Fail(o, "line-read-after-the-call-ended")
+                        ELSE IF e[2] # cur.pos + 1 \/ e[2] > Len(f) THEN Fail(o, "lines-not-handed-out-in-order")
+                        ELSE k' = k + 1 /\ m' = [cur EXCEPT !.pos = e[2], !.doomed = (@ \/ ~Readable(f, op, e[2]))] /\ ci' = ci /\ bad' = bad
                   [] e[1] = "eof" ->
-                        IF cur.st # "loop" THEN Fail(o, "line-read-after-the-loop-ended")
-                        ELSE IF cur.fetched # 0 /\ ~Readable(f, op, cur.fetched) THEN Fail(o, "continued-past-a-bad-line")
-                        ELSE IF afterRead.pos # Len(f) + 1 THEN Fail(o, "end-of-file-before-every-line-was-read")
-                        ELSE k' = k + 1 /\ m' = [afterRead EXCEPT !.st = "ended"] /\ ci' = ci /\ bad' = bad            \* EndLoop is now enabled
-                  [] e[1] = "close" ->
-                        \* (EndLoop | RaiseInvalid) ; ExitCtx
-                        IF cur.st = "ended" THEN k' = k + 1 /\ m' = [cur EXCEPT !.st = "framed"] /\ ci' = ci /\ bad' = bad
-                        ELSE IF cur.st = "loop" /\ cur.fetched # 0 /\ ~Readable(f, op, cur.fetched) THEN k' = k + 1 /\ m' = [cur EXCEPT !.st = "raised"] /\ ci' = ci /\ bad' = bad
-                        ELSE Fail(o, "stream-closed-while-readable-lines-remain")
+                        IF cur.pos # Len(f) THEN Fail(o, "end-of-file-before-every-line-was-read")
+                        ELSE k' = k + 1 /\ m' = cur /\ ci' = ci /\ bad' = bad
+                  [] e[1] = "close" -> k' = k + 1 /\ m' = [cur EXCEPT !.closed = TRUE] /\ ci' = ci /\ bad' = bad
                   [] e[1] = "returned" ->
-                        \* FinishStep from "framed"
-                        IF cur.st # "framed" THEN Fail(o, "returned-without-closing-or-after-a-bad-line")
+                        IF cur.doomed THEN Fail(o, "returned-after-a-bad-line")
+                        ELSE IF cur.pos # Len(f) THEN Fail(o, "returned-before-every-line-was-read")
                         ELSE IF Read(f, op).st # "returned" THEN Fail(o, "returned-where-the-specification-raises")
-                        ELSE IF e[2] # cur.n \/ cur.n # Len(DataLines(f)) THEN Fail(o, "row-count")
+                        ELSE IF e[2] # Len(DataLines(f)) THEN Fail(o, "row-count")
                         ELSE k' = k + 1 /\ m' = [cur EXCEPT !.st = "returned"] /\ ci' = ci /\ bad' = bad
                   [] e[1] = "raised" ->
-                        IF cur.st = "raised" \/ (cur.st = "framed" /\ Read(f, op).st = "raised") THEN k' = k + 1 /\ m' = [cur EXCEPT !.st = "raised"] /\ ci' = ci /\ bad' = bad
-                        ELSE IF cur.st = "framed" THEN Fail(o, "raised-on-a-valid-file")
-                        ELSE Fail(o, "raised-without-closing-the-stream")
+                        IF Read(f, op).st = "raised" THEN k' = k + 1 /\ m' = [cur EXCEPT !.st = "raised"] /\ ci' = ci /\ bad' = bad
+                        ELSE Fail(o, "raised-on-a-valid-file")
                   [] OTHER -> Fail(o, "unknown-event")
         /\ UNCHANGED rvars
 Next == Step
